@@ -32,6 +32,23 @@ static int corrupt_child(int){
   if (!wellformed(r)) return 3;
   return 0;
 }
+// ---- I/O faults on the real cfitsio: the reader's pixel / size / HDU calls are interposed (the executable's definition wins over
+// the shared library's); call #io_fail_at reports a read error instead of doing its work
+#include <dlfcn.h>
+static long io_count = 0, io_fail_at = -1;
+static bool io_hit(int* st){ if (io_fail_at >= 0 && io_count++ == io_fail_at) { *st = 108; return true; } return false; }
+extern "C" int ffgpxv(fitsfile* f, int dt, long* fp, LONGLONG n, void* nul, void* arr, int* any, int* st){ typedef int (*F)(fitsfile*, int, long*, LONGLONG, void*, void*, int*, int*); static F real = (F)dlsym(RTLD_NEXT, "ffgpxv"); if (io_hit(st)) return *st; return real(f, dt, fp, n, nul, arr, any, st); }
+extern "C" int ffgisz(fitsfile* f, int nl, long* nax, int* st){ typedef int (*F)(fitsfile*, int, long*, int*); static F real = (F)dlsym(RTLD_NEXT, "ffgisz"); if (io_hit(st)) return *st; return real(f, nl, nax, st); }
+extern "C" int ffmnhd(fitsfile* f, int t, char* nm, int v, int* st){ typedef int (*F)(fitsfile*, int, char*, int, int*); static F real = (F)dlsym(RTLD_NEXT, "ffmnhd"); if (io_hit(st)) return *st; return real(f, t, nm, v, st); }
+static int iofail_child(int k){
+  { ST w; table(w); w.write_fits(path); }
+  long base = live_blocks; bool thr = false, ok = false; long used = 0;
+  { ST r; io_count = 0; io_fail_at = k; try { ok = r.read_fits(path); } catch (std::exception& e) { thr = true; } used = io_count; io_fail_at = -1;
+    if (used <= k) return 9;                      // the read makes fewer than k interposed calls: the sweep is complete
+    if (thr || !ok) { if (r.ndim != 0 || r.naux != 0 || r.aux != nullptr || r.coefficients != nullptr) { printf("I/O call #%d failing: the failed read left ndim = %u, naux = %u\n", k, r.ndim, r.naux); return 3; } } }
+  if (live_blocks != base) { printf("I/O call #%d failing (%s): %ld block(s) obtained during the read were never released\n", k, thr || !ok ? "read failed" : "read fell back to defaults", live_blocks - base); return 3; }
+  return 0;
+}
 static int allocfail_child(int k){
   ST t; table(t); { ST w; table(w); w.write_fits(path); }
   ST r; ST pre; pre.read_fits(path); if (scen != "readfaults" && scen != "fitfaults") r.read_fits(path);
@@ -95,6 +112,7 @@ int main(int argc, char** argv){
       if (!thr) { t.write_fits(path); ST r; r.read_fits(path); const char* got = r.get_aux_value(key.c_str()); std::string g = got ? got : "<missing>"; while (!g.empty() && g.back() == ' ') g.pop_back();
         if (g != val) { printf("key of %u characters: accepted value of %zu characters came back from the file with %zu characters\n", kl, val.size(), g.size()); bad = 1; } } }
   } else {
+    if (scen == "readfaults" && what.find("I/O call") != std::string::npos) for (int k = 0; k < 200 && !bad; k++) { int r = in_child(iofail_child, k); if (r == 9) break; if (r == 3) bad = 1; else if (r >= 128) { printf("I/O call #%d failing: the process crashed (signal %d)\n", k, r - 128); bad = 1; } }
     for (int k = 0; k < 5000 && !bad; k++) { int r = in_child(allocfail_child, k); if (r == 9) break; if (r == 3) bad = 1; else if (r >= 128) { printf("allocation #%d failing: the process crashed (signal %d) in the operation or when the objects were destroyed\n", k, r - 128); bad = 1; } }
   }
   unlink(path);
